@@ -34,7 +34,7 @@ End Legacy.
 (* one frame with 11 events for a handler that sends one state per invocation *)
 Definition legacy_unm (p : bytes) : omsg :=
   mkMsg 0 None [] None (map (fun id => mkEvent id (Some (true, 0)) None None None) p).
-Definition legacy_b : bindings := [(KBinary, 7, mkHandler 1 [TFb 7 1])].
+Definition legacy_b : bindings := [(KBinary, 7, mkHandler 1 [(7, 1)] [])].
 
 Lemma legacy_loop_deadlock :
   exists sched,
